@@ -57,7 +57,16 @@ THEME10 = ("This round wants regressions that live in the SEAMS: (a) TWO COOPERA
            "relative versus absolute path, a trailing newline or CRLF or BOM in the file, the order in which a directory is listed. "
            "The regression must stay invisible in a single ordinary call on ordinary input. Use a file AND function none of the earlier "
            "changes is in. Earlier rounds asked for the following, all still welcome: ")
-theme = THEME10 if rnd == "10" else THEME9 if rnd == "9" else THEME8 if rnd == "8" else THEME5 if rnd == "5" else (THEME6 if rnd == "6" else (THEME7 if rnd == "7" else ""))
+THEME11 = ("This round is MUTATION-STYLE: the regression is ONE TOKEN - an operator (< / <=, == / !=, and / or, + / -, in / not in), a "
+           "constant (0 / 1 / -1, an index, a slice bound, True / False, a string literal such as a separator or a prefix), a swapped "
+           "pair of arguments, a keyword argument's name or value, a method (strip / rstrip / lstrip, startswith / endswith, "
+           "append / extend, any / all, min / max, sorted / reversed), or one deleted `not`. Survey the anchored code for lines the "
+           "test-suite EXECUTES but whose result it never pins for some class of inputs; pick the mutant that (1) survives the "
+           "suite, (2) breaks the property for inputs inside its domain, and (3) is as QUIET as possible - affects the fewest inputs, "
+           "produces plausible output, raises nothing. Try several candidates before settling (run the suite on each) and say "
+           "which ones were killed by the tests. Use a file AND function none of the earlier changes is in if you can. Earlier "
+           "rounds asked for the following, all still welcome: ")
+theme = THEME11 if rnd == "11" else THEME10 if rnd == "10" else THEME9 if rnd == "9" else THEME8 if rnd == "8" else THEME5 if rnd == "5" else (THEME6 if rnd == "6" else (THEME7 if rnd == "7" else ""))
 out = "/tmp/wt/prompts%s" % rnd
 os.makedirs(out, exist_ok=True)
 tpl = open(os.path.join(os.path.dirname(os.path.abspath(__file__)), "prompt_template.txt")).read()
